@@ -122,6 +122,9 @@ func c05WireRun(cs c05Wire, trace bool) (rule, msg string, w *world.World) {
 		pl := &world.Plugin{W: w, Peer: "P1", Marker: true, NoYield: true}
 		pl.Handle = func(p *world.Plugin, s, n int, b []byte) *corebgp.Notification {
 			// a real plugin decodes every UPDATE; errors are swallowed so one session can carry many inputs
+			if string(b) == "REJECT" {
+				return &corebgp.Notification{Code: 3, Subcode: 1}
+			}
 			corebgp.UpdateNotificationFromErr(dec.Decode(&decoded{}, b))
 			corebgp.UpdateNotificationFromErr(decAP.Decode(&decoded{}, b))
 			return nil
@@ -546,6 +549,28 @@ func c05Check(c *harness.Ctx) {
 	}
 	for _, l := range []int{0, 1, 2, 3, 4077} {
 		streams = append(streams, wire.Frame(wire.TypeNotification, bytes.Repeat([]byte{3}, l)))
+	}
+	// received NOTIFICATIONs: codes x subcodes x data patterns (incl. data whose first octet is a length)
+	for _, code := range []byte{0, 1, 2, 3, 4, 5, 6, 7, 255} {
+		for _, sub := range []byte{0, 1, 2, 3, 4, 5, 6, 7, 8, 9, 10, 11, 12, 255} {
+			for _, data := range [][]byte{nil, {0}, {1}, {255}, {64, 'b', 'y', 'e'}, {3, 'b', 'y', 'e'}, {2, 'a'}, bytes.Repeat([]byte{0xff}, 128)} {
+				streams = append(streams, wire.Notification(code, sub, data))
+			}
+		}
+	}
+	// bursts: a message that ends the session (or is rejected by the plugin), with 1-3 complete messages right behind it in the same write
+	enders := [][]byte{wire.Notification(6, 0, nil), wire.Notification(3, 1, nil), wire.RawHeader([16]byte{}, 19, 4), wire.RawHeader(wire.GoodMarker, 19, 99),
+		wire.Open(65002, 90, 0x0a000002), wire.Update([]byte("REJECT")), wire.Keepalive()}
+	for _, en := range enders {
+		for n := 1; n <= 3; n++ {
+			for _, tail := range [][]byte{wire.Keepalive(), wire.Update([]byte{0, 0, 0, 0})} {
+				s := append([]byte{}, en...)
+				for i := 0; i < n; i++ {
+					s = append(s, tail...)
+				}
+				streams = append(streams, s)
+			}
+		}
 	}
 	nPlain := len(streams)
 	// truncations of valid messages, followed by FIN
